@@ -217,3 +217,82 @@ def check_entry_points() -> Dict[str, Any]:
     finally:
         CL.socket, CL.select, CL.time = saved
     return {"cases": n, "failures": failures}
+
+
+def check_reconnect_state() -> Dict[str, Any]:
+    """C02 / C08 on a *second* session of the same Client object: however the first session ended (disconnect(), the peer
+    closing while the client reads, a reset while it sends, connect() while still connected), the new connection starts
+    with no subscription at the manager, so the client must report none and `read_message` must not hand out frames of the
+    types the old session had subscribed to (nor everything, after an old subscribe-to-all).
+    Returns {"cases": n, "failures": [{property, how, what, ...}]}."""
+    import pyrtma.client as CL
+    import pyrtma.core_defs as cd
+    from pyrtma.header import get_header_cls
+    failures: List[Dict[str, Any]] = []
+    n = 0
+    saved = (CL.socket, CL.select, CL.time)
+    T1 = cd.MT_EXIT if hasattr(cd, "MT_EXIT") else cd.MT_CLIENT_INFO
+    try:
+        for how, sub_all, timecode in itertools.product(("disconnect", "eof_on_read", "reset_on_send", "still_connected"),
+                                                        (False, True), (False, True)):
+            n += 1
+            world = {"sent": b"", "inbuf": _ack_bytes(timecode, 12) * 3}     # handshake (2) + subscribe (1)
+            CL.socket, CL.select, CL.time = _shims(world)
+            tag = dict(first_session_ended_by=how, subscribed_to_all=sub_all, timecode=timecode)
+            try:
+                c = CL.Client(module_id=12, timecode=timecode, name="rc")
+                try:
+                    c.logger.enable_console = False
+                except Exception:
+                    pass
+                c.connect("h:1")
+                if sub_all:
+                    c.subscribe([cd.ALL_MESSAGE_TYPES])
+                else:
+                    c.subscribe([T1])
+                if how == "disconnect":
+                    c.disconnect()
+                elif how == "eof_on_read":
+                    world["inbuf"] = b""
+                    world["eof"] = True
+                    try:
+                        c.read_message(timeout=0.05)
+                    except Exception:  # noqa: BLE001
+                        pass
+                    world["eof"] = False
+                elif how == "reset_on_send":
+                    world["sendfail"] = True
+                    try:
+                        c.send_signal(T1)
+                    except Exception:  # noqa: BLE001
+                        pass
+                    world["sendfail"] = False
+                # second session: handshake acks, then one signal frame of the old type is already queued
+                H = get_header_cls(timecode)
+                h = H()
+                h.msg_type = T1
+                h.src_mod_id = 33
+                world["sent"] = b""
+                world["inbuf"] = _ack_bytes(timecode, 12) * 2 + bytes(h)
+                c.connect("h:1")
+                reported = sorted(int(t) for t in c.subscribed_types)
+                if reported or getattr(c, "_sub_all", False):
+                    failures.append(dict(tag, property="C02", what=f"after reconnecting, the client reports subscriptions "
+                                         f"{reported}{' and subscribe-to-all' if getattr(c, '_sub_all', False) else ''}; the manager "
+                                         f"has none for the new connection"))
+                got = None
+                try:
+                    m = c.read_message(timeout=0.05, ack=False)
+                    got = None if m is None else int(m.header.msg_type)
+                except Exception as e:  # noqa: BLE001
+                    got = f"raised {type(e).__name__}"
+                if got is not None:
+                    failures.append(dict(tag, property="C08", what=f"after reconnecting (no subscription made on the new "
+                                         f"connection) read_message returned {got!r} for a queued frame of type {T1}"))
+                c._connected = False
+            except Exception as e:  # noqa: BLE001
+                failures.append(dict(tag, property="C02", what=f"raised {type(e).__name__}: {e}"))
+                failures.append(dict(tag, property="C08", what=f"raised {type(e).__name__}: {e}"))
+    finally:
+        CL.socket, CL.select, CL.time = saved
+    return {"cases": n, "failures": failures}
